@@ -18,7 +18,11 @@ META = dict(
          "template of a template set (explicit list, and the product prefixes x spellings x separators x suffixes); "
          "the Go driver calls format.FileNamingFormat / stringx ToCamel / ToSnake on the copied current sources "
          "inside recover(), compares result/error, re-evaluates every pair sequentially and from two goroutines "
-         "(determinism), and checks the camel->snake round trip where the statement promises it.",
+         "(determinism), and checks the camel->snake round trip where the statement promises it. All 4 x 256 casings "
+         "of the two words are enumerated by the specification (only lower/upper/title are styles). A concurrent "
+         "stage runs 16 goroutines over TLC-generated long identifiers x templates on a -race build (a race report "
+         "is a disagreement, C20:data-race) and on the plain build, comparing every concurrent result with the "
+         "prediction and with the value the same call returned alone.",
     note="Trusted: TLC, the token->rune table of the driver, the copy of the two leaf packages (tools/god/config and "
          "the rest of the generator cannot be compiled offline). Identifier alphabet {a,b,A,B,1,_,U+4E2D} (+space for "
          "camel/snake); characters for which 'title casing of a word' or 'upper-case letter' is not fixed by the "
@@ -133,8 +137,9 @@ def build_driver(ctx):
     return bins
 
 
-def concurrent(ctx, racebin, name, plan, goroutines=16, iters=3, **kw):
-    """N goroutines evaluate every pair of a TLC-generated file at overlapping times (race-detector build)."""
+def concurrent(ctx, racebin, binp, name, plan, goroutines=16, iters=3, **kw):
+    """N goroutines evaluate every pair of a TLC-generated file at overlapping times: first the race-detector
+    build (stops at the first report), then - if it reported nothing - the plain build (more overlap)."""
     only = os.environ.get("VERIF_PLANS")
     if only and name not in only.split(","):
         return
@@ -142,34 +147,48 @@ def concurrent(ctx, racebin, name, plan, goroutines=16, iters=3, **kw):
     path, cnt = ctx.write_cases(name + ".ndjson", [header] + cases)
     ctx.notes.setdefault("pairs", {})[name] = dict(identifiers=len(cases), templates=len(json.loads(header)["templates"]),
                                                    goroutines=goroutines, iterations=iters)
-    outp = os.path.join(ctx.build, "verdicts-%s.ndjson" % name)
-    logp = os.path.join(ctx.build, name + ".out")
-    e = dict(os.environ)
-    e.update(core.GOENV)
-    e.update(VERIF_SEED=str(ctx.seed), VERIF_TIER=ctx.tier, VERIF_CASES=path, VERIF_OUT=outp, VERIF_GOROUTINES=str(goroutines),
-             VERIF_ITER=str(iters), GOMAXPROCS=str(max(4, min(8, core.maxpar()))), GORACE="halt_on_error=0")
-    t0 = time.time()
-    with open(logp, "w") as fo:
-        try:
-            rc = subprocess.run([racebin, "-test.run", "^TestVerifC20Concurrent$", "-test.count=1", "-test.timeout", "600s"],
-                                cwd=ctx.build, env=e, stdout=fo, stderr=subprocess.STDOUT, timeout=700).returncode
-        except subprocess.TimeoutExpired:
-            raise core.Infra("concurrent stage %s timed out" % name)
-    out = open(logp, errors="replace").read()
-    races = out.count("WARNING: DATA RACE")
-    # a detected race makes the test binary exit 1 although the driver finished; the verdict file decides
-    cnt, bad = ctx.collect(outp, 0 if (races or rc in (0, 1)) else rc, out, path, name, "concurrent")
-    ctx.go_runs.append(dict(name=name, run="TestVerifC20Concurrent", race=True, rc=rc, wall_s=round(time.time() - t0, 2),
-                            data_races=races))
-    core.log("concurrent %s: cases=%d steps=%d bad=%d data-races=%d rc=%s %.1fs" % (
-        name, len(cases), cnt.get("steps", 0), len(bad), races, rc, time.time() - t0))
-    if races:
-        i = out.index("WARNING: DATA RACE")
-        ctx.disagree("C20:data-race", "the race detector reported %d data race(s) while %d goroutines called ToCamel/ToSnake/"
-                     "FileNamingFormat on the copied sources; first report:\n%s" % (races, goroutines, out[i:i + 2500]),
-                     case=None, source="concurrent")
-    elif rc != 0 and not bad:
-        raise core.Infra("concurrent stage %s exited rc=%s without a disagreement or a race report\n%s" % (name, rc, out[-3000:]))
+    for kind, exe in (("race", racebin), ("plain", binp)):
+        label = "%s-%s" % (name, kind)
+        outp = os.path.join(ctx.build, "verdicts-%s.ndjson" % label)
+        logp = os.path.join(ctx.build, label + ".out")
+        e = dict(os.environ)
+        e.update(core.GOENV)
+        e.update(VERIF_SEED=str(ctx.seed), VERIF_TIER=ctx.tier, VERIF_CASES=path, VERIF_OUT=outp,
+                 VERIF_GOROUTINES=str(goroutines), VERIF_ITER=str(iters), VERIF_CONC_SECONDS="240",
+                 GOMAXPROCS=str(max(4, min(8, core.maxpar()))), GORACE="halt_on_error=1")
+        t0 = time.time()
+        with open(logp, "w") as fo:
+            try:
+                rc = subprocess.run([exe, "-test.run", "^TestVerifC20Concurrent$", "-test.count=1", "-test.timeout", "600s"],
+                                    cwd=ctx.build, env=e, stdout=fo, stderr=subprocess.STDOUT, timeout=700).returncode
+            except subprocess.TimeoutExpired:
+                raise core.Infra("concurrent stage %s timed out" % label)
+        out = open(logp, errors="replace").read()
+        races = out.count("WARNING: DATA RACE")
+        wall = time.time() - t0
+        ctx.go_runs.append(dict(name=label, run="TestVerifC20Concurrent", race=(kind == "race"), rc=rc,
+                                wall_s=round(wall, 2), data_races=races))
+        finished = os.path.exists(outp) and '"counters"' in (open(outp).read().splitlines() or [""])[-1]
+        cnt, bad = {}, []
+        if finished:
+            # (a race report makes the test binary exit non-zero although the driver finished: the verdict file decides)
+            cnt, bad = ctx.collect(outp, 0 if rc in (0, 1, 66) else rc, out, path, label, "concurrent")
+        core.log("concurrent %s: cases=%d steps=%d bad=%d data-races=%d finished=%s rc=%s %.1fs" % (
+            label, len(cases), cnt.get("steps", 0), len(bad), races, finished, rc, wall))
+        if races:
+            # GORACE=halt_on_error=1: the process stops at the first report, before a corrupted shared object can
+            # make a conversion loop or allocate without bound
+            i = out.index("WARNING: DATA RACE")
+            ctx.disagree("C20:data-race", "the race detector reported a data race while %d goroutines called ToCamel/"
+                         "ToSnake/FileNamingFormat on the copied sources (the results are not a function of the inputs "
+                         "alone); report:\n%s" % (goroutines, out[i:i + 3000]), case=None, source="concurrent")
+            return
+        if not finished:
+            raise core.Infra("concurrent stage %s did not finish (rc=%s) and there is no race report\n%s" % (label, rc, out[-3000:]))
+        if rc != 0 and not bad:
+            raise core.Infra("concurrent stage %s exited rc=%s without a disagreement or a race report\n%s" % (label, rc, out[-3000:]))
+        if bad:
+            return
 
 
 def gen(ctx, name, plan, simulate=None, depth=None):
@@ -217,14 +236,14 @@ def run(ctx):
         one(ctx, binp, "tpl2", "tpl2")
         one(ctx, binp, "space4", "space4")
         one(ctx, binp, "sim", "sim", simulate=200, depth=13)
-        concurrent(ctx, racebin, "conc", "conc", simulate=40, depth=16)
+        concurrent(ctx, racebin, binp, "conc", "conc", simulate=40, depth=16)
     else:
         one(ctx, binp, "ids5", "ids5")
         one(ctx, binp, "ids6", "ids6")
         one(ctx, binp, "tpl3", "tpl3")
         one(ctx, binp, "space6", "space6")
         one(ctx, binp, "sim", "sim", simulate=2500, depth=13)
-        concurrent(ctx, racebin, "conc", "conc", goroutines=16, iters=10, simulate=150, depth=16)
+        concurrent(ctx, racebin, binp, "conc", "conc", goroutines=16, iters=10, simulate=150, depth=16)
 
 
 def replay(ctx, rp):
